@@ -212,6 +212,7 @@ def run(ctx):
     b4(ctx, F, nodes)
     b5(ctx, F, nodes)
     b6(ctx, F, nodes)
+    b8(ctx, F, nodes)
     ctx.floor("C09.B1", "searcher-calls", sum(len(n.calls) for n in nodes.values()), 6)       # 10 on the reference tree
     ctx.note("not decided: equality of the returned value with an unpruned reference search (numerical; needs a reference run); "
              "transposition-table interaction (the property disables the table); what the leaf rule calls a tactical move")
@@ -685,6 +686,61 @@ def _probe_overwritten_when_better(nd, name):
     later = [c for c, k in kinds if k in ("re-search", "full") and c["line"] >= min(x["line"] for x in nulls) and c not in nulls]
     better = {("(best_score < %s)" % name, True), ("(%s < %s)" % (low, name), True)}
     return any(better & set(c["guards"]) for c in later)
+
+
+def b8(ctx, F, nodes, parts=("bound", "best"), rule="C09.B8"):
+    """B8 every child value is used: the result of each full-window search and of each re-search (i) raises the node's lower bound
+    (`low = max(low, r)` / `low = r` - the form is B6's concern, here that it exists for this r), and (ii) in the nodes that keep a
+    best score and a best move apart from the bound, becomes the best score together with its move.  A result that is compared
+    and then dropped makes the node return a value (and store a move) that ignores that child."""
+    for p, nd in nodes.items():
+        low = LOWER[p]
+        short = SHORT[p]
+        assigns = []
+        for n, anc in hir.walk(nd.body):
+            if n.get("k") == "Assign" and hir.strip(n["l"]).get("k") == "Path" and hir.strip(n["l"])["to"].get("res") == "local":
+                assigns.append((hir.strip(n["l"])["to"]["name"], nd.sym(n["r"]), n, anc))
+        tracks_best = any(t == "best_score" for t, _, _, _ in assigns) and low != "best_score"
+        for i, c in enumerate(nd.calls):
+            if not c["pending"] or not c["args"] or not c["in_loop"] or c["let"] is None:
+                continue
+            ok_w, _desc, kind = _window_ok(nd, c)
+            if kind not in ("full", "re-search"):
+                continue
+            r = c["let"]
+            # the scope of r: the block its `let` stands in (two branches may each have a `score` of their own)
+            scope = None
+            for n_, anc_ in hir.walk(nd.body):
+                if n_ is c["node"]:
+                    lets_ = [j for j, a_ in enumerate(anc_) if a_.get("k") == "SLet"]
+                    if lets_ and lets_[-1] > 0:
+                        scope = anc_[lets_[-1] - 1]
+                    break
+            if scope is None:
+                continue
+            in_scope = {id(x) for x, _ in hir.walk(scope)}
+            assigns_r = [(t, v, n, anc) for t, v, n, anc in assigns if id(n) in in_scope]
+            uses = lambda v: hir.contains(v, ("var", r))
+            raised = any(t == low and uses(v) for t, v, _, _ in assigns_r)
+            key = "%s:%s#%d" % (short, SHORT[c["callee"]], i)
+            if "bound" in parts:
+              ctx.check(rule, "child-value-raises-the-bound:" + key, raised, fn=p, file=nd.fn["file"], line=c["line"],
+                      what="the value of a fully searched child never reaches the node's lower bound (%s): later children are searched "
+                           "with a stale window and the node returns a value that ignores this child" % low,
+                      expected="%s = max(%s, %s) | if %s > %s { %s = %s }" % (low, low, r, r, low, low, r), found=[hir.fmt(v, 60) for t, v, _, _ in assigns if t == low])
+            if (tracks_best or p == E) and "best" in parts:
+                bs = [(n, anc) for t, v, n, anc in assigns_r if t == "best_score" and uses(v)]
+                okb = False
+                for n, anc in bs:
+                    blk = [a_ for a_ in anc if a_.get("k") == "Block"][-1]
+                    same_block = [x for x, _ in hir.walk(blk)]
+                    okb = okb or any(t == "best_move" and v[:1] == ("ctor",) and str(v[1]).endswith("::Some") and any(x is n2 for x in same_block)
+                                     for t, v, n2, _ in assigns)
+                ctx.check(rule, "child-value-becomes-best-score-with-its-move:" + key, okb, fn=p, file=nd.fn["file"], line=c["line"],
+                          what="the value of a fully searched child that beats the best score is not recorded as the best score together "
+                               "with its move: the node stores / returns a score or a move that ignores this child (a table entry without "
+                               "its move makes the root answer `none`)",
+                          expected="best_score = %s; best_move = Some(<move>) in one block" % r, found=[hir.line(n) for n, _ in bs])
 
 
 def b6(ctx, F, nodes):
